@@ -22,6 +22,15 @@ type Val struct {
 	Fn   *FnVal
 	Orig *Loc // for loaded slice values: where they were loaded from
 	Rune *runeSrc // provenance of a []rune value: the characters [Lo,Hi) of string S
+	// FnAlts: a function value that is one of several statically known closures, each under
+	// the path condition that selected it (a variable assigned different closures on
+	// different branches); a call through it is a case split over the alternatives
+	FnAlts []FnAlt
+}
+
+type FnAlt struct {
+	Guard string
+	Fn    *FnVal
 }
 
 type runeSrc struct{ S, Lo, Hi string }
@@ -942,6 +951,22 @@ func (r *run) mergeVals(ins []inEdge, vals []Val, prefix string) Val {
 		r.assume(ins[i].cond, fmt.Sprintf("(= %s %s)", c, v.Term))
 	}
 	out := Val{Term: c, Sort: first.Sort, Type: first.Type}
+	allFn := true
+	for _, v := range vals {
+		if (v.Fn == nil || v.Fn.Fn == nil) && len(v.FnAlts) == 0 {
+			allFn = false
+		}
+	}
+	if allFn {
+		for i, v := range vals {
+			if v.Fn != nil && v.Fn.Fn != nil {
+				out.FnAlts = append(out.FnAlts, FnAlt{Guard: ins[i].cond, Fn: v.Fn})
+			}
+			for _, a := range v.FnAlts {
+				out.FnAlts = append(out.FnAlts, FnAlt{Guard: and(ins[i].cond, a.Guard), Fn: a.Fn})
+			}
+		}
+	}
 	// keep Orig if all agree
 	o := first.Orig
 	for _, v := range vals[1:] {
